@@ -1,0 +1,88 @@
+//go:build verif
+
+package paillier
+
+// Contracts for the deductive checker in /verif (comment-only; compiled only under the verif tag).
+// Group elements are abstract values; ScalarOp, OpInv, ForgetOrder, LearnOrder, Representative, EmbedRSA,
+// NthResidue are deterministic functions of their arguments.
+
+//@ func (*Ciphertext).Value
+//@   property C16
+//@   purefn
+//@   ensures result == c.c
+
+//@ func (*Nonce).Value
+//@   property C16
+//@   purefn
+//@   ensures result == n.r
+
+//@ func (*Plaintext).Value
+//@   property C16
+//@   purefn
+//@   ensures result == pt.p
+
+//@ func (*PublicKey).CiphertextGroup
+//@   property C16
+//@   purefn
+//@   ensures result == pk.group
+
+// A decoded secret key is, field for field, the key the validating constructor builds from the decoded group:
+// nothing of the receiver's previous key survives.
+//@ func (*SecretKey).UnmarshalCBOR
+//@   property C16, C12
+//@   let dto = as(res(serde.UnmarshalCBOR(data), 0), *secretKeyDTO)
+//@   let nk = res(NewSecretKey(dto.Group), 0)
+//@   ensures err == nil ==> res(NewSecretKey(dto.Group), 1) == nil
+//@   ensures err == nil ==> sk.group == nk.group && sk.PublicKey.group == nk.PublicKey.group && sk.nonceGroup == nk.nonceGroup
+//@   ensures err == nil ==> sk.negQInvModP == nk.negQInvModP && sk.negPInvModQ == nk.negPInvModQ && sk.qInvModPhiP == nk.qInvModPhiP && sk.pInvModPhiQ == nk.pInvModPhiQ
+
+// Public-key homomorphic operations act on the underlying group elements with the FULL scalar.
+//@ func (*PublicKey).CiphertextScalarOp
+//@   property C16
+//@   ensures err == nil ==> result != nil && result.c == c.c.ScalarOp(scalar) && pk.group.Contains(c.c)
+
+//@ func (*PublicKey).CiphertextOpInv
+//@   property C16
+//@   ensures err == nil ==> result != nil && result.c == c.c.OpInv() && pk.group.Contains(c.c)
+
+//@ func (*PublicKey).NonceScalarOp
+//@   property C16
+//@   ensures err == nil ==> result != nil && result.r == n.r.ScalarOp(scalar)
+
+//@ func (*PublicKey).NonceOpInv
+//@   property C16
+//@   ensures err == nil ==> result != nil && result.r == n.r.OpInv()
+
+// Encryption is Representative(m) combined with IdentityNoise(r): (1+N)^m * r^N.
+//@ func (*PublicKey).Representative
+//@   property C16
+//@   purefn
+//@   ensures err == nil ==> result != nil && result.c == res(pk.group.Representative(p.p), 0)
+
+//@ func (*PublicKey).IdentityNoise
+//@   property C16
+//@   purefn
+//@   ensures err == nil ==> result != nil && result.c == res(pk.group.NthResidue(res(pk.group.EmbedRSA(n.r), 0)), 0)
+
+// The secret-key (CRT-accelerated) operations compute the same group operation on the same operands.
+//@ func (*SecretKey).CiphertextScalarOp
+//@   property C16
+//@   ensures err == nil ==> result != nil && result.c == res(c.c.LearnOrder(sk.group), 0).ScalarOp(scalar).ForgetOrder()
+
+//@ func (*SecretKey).CiphertextOpInv
+//@   property C16
+//@   ensures err == nil ==> result != nil && result.c == res(c.c.LearnOrder(sk.group), 0).OpInv().ForgetOrder()
+
+//@ func (*SecretKey).NonceScalarOp
+//@   property C16
+//@   ensures err == nil ==> result != nil && result.r == res(n.r.LearnOrder(sk.nonceGroup), 0).ScalarOp(scalar).ForgetOrder()
+
+//@ func (*SecretKey).Representative
+//@   property C16
+//@   purefn
+//@   ensures err == nil ==> result != nil && result.c == res(sk.group.Representative(p.p), 0).ForgetOrder()
+
+//@ func (*SecretKey).IdentityNoise
+//@   property C16
+//@   purefn
+//@   ensures err == nil ==> result != nil && result.c == res(sk.group.NthResidue(res(sk.group.EmbedRSA(n.r), 0)), 0).ForgetOrder()
